@@ -1,5 +1,6 @@
 import CfdpVerif.Model.World
 import CfdpVerif.Lemmas.Monad
+import CfdpVerif.Lemmas.SeqSource
 /-!
 # C19 — put requests are admitted, parameterised and identified correctly
 
@@ -164,5 +165,174 @@ example : ∃ s', transactionStart ⟨⟨⟨1, 2⟩, true, true, true, true, [],
       fs := [("/f", .file [1, 2, 3, 4, 5])] } = .ok () s' ∧ s'.p.segmentLen = 4 ∧
       s'.p.conf.seq = ⟨0, 2⟩ := by
   refine ⟨_, rfl, ?_, ?_⟩ <;> decide
+
+end Cfdp.Source.C19
+
+namespace Cfdp.Source.C19
+open Cfdp Cfdp.Source Cfdp.Source.Seq Cfdp.Source.SeqRel
+
+/-! ## Every history: no two transactions share a sequence number -/
+
+/-- what the user, the peer and other handlers of the same entity can do -/
+inductive Op where
+  | put (req : PutReq) | sm (pkt : Option Pdu) | get | cancel (tid : Tid) | reset
+  | otherTransaction          -- another handler of the entity took a number from the shared provider
+
+def Op.run (env : Env) : Op → SrcSt → SrcSt
+  | .put r, s => stateOf (putRequest env r s)
+  | .sm pkt, s => stateOf (stateMachine env pkt s)
+  | .get, s => stateOf (getNextPacket s)
+  | .cancel t, s => stateOf (cancelRequest env t s)
+  | .reset, s => stateOf (Source.reset s)
+  | .otherTransaction, s => { s with prov := { s.prov with next := (s.prov.next + 1) % provWrap s.prov.bits } }
+
+/-- how many numbers the operation can draw from the provider -/
+def Op.draws : Op → Nat
+  | .sm _ => 1
+  | .otherTransaction => 1
+  | _ => 0
+
+def runOps (env : Env) (s : SrcSt) (ops : List Op) : SrcSt := ops.foldl (fun s op => op.run env s) s
+
+def draws (ops : List Op) : Nat := (ops.map Op.draws).sum
+
+/-- `l` lists, in order, the values `(n0 + i) % W` of strictly increasing draw indices `i < k` -/
+def Issued (n0 W k : Nat) (l : List Nat) : Prop :=
+  ∃ is : List Nat, is.Pairwise (· < ·) ∧ (∀ i ∈ is, i < k) ∧ l = is.map (fun i => (n0 + i) % W)
+
+/-- `k` numbers have been drawn from the provider since it stood at `n0`, and the handler's
+transactions got, in order, the values of strictly increasing draws -/
+def SeqInv (bits n0 k : Nat) (s : SrcSt) : Prop :=
+  s.prov.bits = bits ∧ s.prov.next = (n0 + k) % provWrap bits ∧ Issued n0 (provWrap bits) k (txSeqs s.inds)
+
+theorem Issued.mono {n0 W k k' : Nat} {l : List Nat} (h : Issued n0 W k l) (hk : k ≤ k') : Issued n0 W k' l := by
+  obtain ⟨is, h1, h2, h3⟩ := h
+  exact ⟨is, h1, fun i hi => Nat.lt_of_lt_of_le (h2 i hi) hk, h3⟩
+
+theorem Issued.snoc {n0 W k : Nat} {l : List Nat} (h : Issued n0 W k l) :
+    Issued n0 W (k + 1) (l ++ [(n0 + k) % W]) := by
+  obtain ⟨is, h1, h2, h3⟩ := h
+  refine ⟨is ++ [k], ?_, ?_, ?_⟩
+  · rw [List.pairwise_append]
+    exact ⟨h1, List.pairwise_singleton _ _, fun a ha b hb => by simp at hb; subst hb; exact h2 a ha⟩
+  · intro i hi
+    simp at hi
+    rcases hi with hi | hi
+    · exact Nat.lt_succ_of_lt (h2 i hi)
+    · omega
+  · simp [h3]
+
+theorem Issued.nodup {n0 W k : Nat} {l : List Nat} (h : Issued n0 W k l) (hk : k ≤ W) : l.Nodup := by
+  obtain ⟨is, h1, h2, rfl⟩ := h
+  rw [List.Nodup, List.pairwise_map]
+  refine h1.imp_of_mem ?_
+  intro a b ha hb hab
+  have := h2 b hb
+  exact C19_sequence_numbers_distinct n0 a b W hab (by omega)
+
+theorem succ_mod (n0 k W : Nat) : ((n0 + k) % W + 1) % W = (n0 + (k + 1)) % W := by
+  rw [← Nat.add_assoc]
+  conv => rhs; rw [Nat.add_mod]
+  conv => lhs; rw [Nat.add_mod, Nat.mod_mod]
+
+private theorem frame_step {α : Type} (env : Env) (x : SM α) (s : SrcSt)
+    (h : ∀ Q, Preserves (Dep env Q) x) {bits n0 k : Nat} (hi : SeqInv bits n0 k s) :
+    SeqInv bits n0 k (stateOf (x s)) := by
+  have := h (fun p l => p = s.prov ∧ l = txSeqs s.inds) s ⟨rfl, rfl⟩
+  simp only [Dep] at this
+  unfold SeqInv
+  rw [this.1, this.2]
+  exact hi
+
+/-- **One operation.**  Whatever the operation, the state and the PDU: it draws at most
+`op.draws` numbers, and the numbers issued so far stay the values of strictly increasing draws. -/
+theorem C19_seq_step (env : Env) (op : Op) (s : SrcSt) (bits n0 k : Nat) (hi : SeqInv bits n0 k s) :
+    ∃ k', k ≤ k' ∧ k' ≤ k + op.draws ∧ SeqInv bits n0 k' (op.run env s) := by
+  cases op with
+  | put r => exact ⟨k, Nat.le_refl _, by simp [Op.draws], by simp only [Op.run]; exact frame_step env _ s (fun Q => putRequest_d env Q r) hi⟩
+  | get => exact ⟨k, Nat.le_refl _, by simp [Op.draws], by simp only [Op.run]; exact frame_step env _ s (fun Q => getNextPacket_d env Q) hi⟩
+  | cancel t => exact ⟨k, Nat.le_refl _, by simp [Op.draws], by simp only [Op.run]; exact frame_step env _ s (fun Q => cancelRequest_d env Q t) hi⟩
+  | reset => exact ⟨k, Nat.le_refl _, by simp [Op.draws], by simp only [Op.run]; exact frame_step env _ s (fun Q => reset_d env Q) hi⟩
+  | otherTransaction =>
+    obtain ⟨h1, h2, h3⟩ := hi
+    refine ⟨k + 1, by omega, by simp [Op.draws], ?_, ?_, ?_⟩
+    · simpa [Op.run] using h1
+    · simp only [Op.run]; rw [h2, h1]; exact succ_mod n0 k _
+    · simpa [Op.run] using h3.mono (Nat.le_succ k)
+  | sm pkt =>
+    obtain ⟨h1, h2, h3⟩ := hi
+    have := triple_elim _ _ _ _ (stateMachine_spec env pkt s.prov (txSeqs s.inds)) s ⟨rfl, rfl⟩
+    have hD : Dep env (Drawn s.prov (txSeqs s.inds)) (stateOf (stateMachine env pkt s)) := by
+      cases hx : stateMachine env pkt s <;> simp [hx, stateOf] at this ⊢ <;> exact this
+    simp only [Dep, Drawn] at hD
+    obtain ⟨hb, hD⟩ := hD
+    rcases hD with ⟨hl, hn | hn⟩ | ⟨hl, hn⟩
+    · exact ⟨k, Nat.le_refl _, by simp [Op.draws], by simp only [Op.run]; rw [hb]; exact h1,
+        by simp only [Op.run]; rw [hn]; exact h2, by simp only [Op.run]; rw [hl]; exact h3⟩
+    · refine ⟨k + 1, by omega, by simp [Op.draws], by simp only [Op.run]; rw [hb]; exact h1, ?_, ?_⟩
+      · simp only [Op.run]; rw [hn, h2, h1]; exact succ_mod n0 k _
+      · simp only [Op.run]; rw [hl]; exact h3.mono (Nat.le_succ k)
+    · refine ⟨k + 1, by omega, by simp [Op.draws], by simp only [Op.run]; rw [hb]; exact h1, ?_, ?_⟩
+      · simp only [Op.run]; rw [hn, h2, h1]; exact succ_mod n0 k _
+      · simp only [Op.run]; rw [hl, h2]; exact h3.snoc
+
+/-- **Every history.**  Start from a handler that has issued no transaction yet, its provider standing
+at `n0`; let the user, the peer and other handlers sharing the provider do anything, in any order, any
+number of times — put requests (accepted, refused, premature), `state_machine` with any PDU or none,
+packet retrievals, cancel requests, resets, transactions of other handlers.  Then at most one number
+was drawn per `state_machine` call / foreign transaction, the provider stands at `n0 +` the number of
+draws (mod `2^bits`), and the sequence numbers of this handler's transactions are, in order, the
+values `(n0 + i) mod 2^bits` of strictly increasing draws `i`: each transaction got the provider's next
+value and no draw served two transactions. -/
+theorem C19_all_histories_issued (env : Env) (s : SrcSt) (ops : List Op)
+    (h0 : txSeqs s.inds = []) (hn : s.prov.next < provWrap s.prov.bits) :
+    ∃ k, k ≤ draws ops ∧ SeqInv s.prov.bits s.prov.next k (runOps env s ops) := by
+  have gen : ∀ (ops : List Op) (s' : SrcSt) (k : Nat), SeqInv s.prov.bits s.prov.next k s' →
+      ∃ k', k' ≤ k + draws ops ∧ SeqInv s.prov.bits s.prov.next k' (runOps env s' ops) := by
+    intro ops
+    induction ops with
+    | nil => intro s' k hi; exact ⟨k, by simp [draws], hi⟩
+    | cons op ops ih =>
+      intro s' k hi
+      obtain ⟨k1, -, hk1, hi1⟩ := C19_seq_step env op s' _ _ k hi
+      obtain ⟨k2, hk2, hi2⟩ := ih _ k1 hi1
+      refine ⟨k2, ?_, by simpa [runOps] using hi2⟩
+      simp only [draws, List.map_cons, List.sum_cons] at hk2 ⊢
+      omega
+  have := gen ops s 0 ⟨rfl, by simpa using (Nat.mod_eq_of_lt hn).symm, ⟨[], List.Pairwise.nil, by simp, by simp [h0]⟩⟩
+  simpa using this
+
+/-- **No two transactions of one entity share a transaction id**: in every history with at most
+`2^bits` draws (state machine calls and transactions of other handlers together), the sequence numbers
+issued to this handler's transactions are pairwise distinct — and, by `C19_all_histories_issued`,
+distinct from every number drawn by the other handlers. -/
+theorem C19_all_histories_distinct (env : Env) (s : SrcSt) (ops : List Op)
+    (h0 : txSeqs s.inds = []) (hn : s.prov.next < provWrap s.prov.bits) (hd : draws ops ≤ provWrap s.prov.bits) :
+    (txSeqs (runOps env s ops).inds).Nodup := by
+  obtain ⟨k, hk, -, -, hI⟩ := C19_all_histories_issued env s ops h0 hn
+  exact hI.nodup (Nat.le_trans hk hd)
+
+/-! ### non-vacuity: two transactions of one handler across the wrap-around of an 8-bit provider, a
+transaction of another handler in between -/
+
+def exEnvH : Env := ⟨⟨⟨1, 2⟩, true, true, true, true,
+  [⟨⟨2, 2⟩, some 4, 64, false, false, .unack, 0, 1000, 2, 2, false, true, 1000, 2⟩], 1000⟩, 0⟩
+
+def exReqH : PutReq := ⟨⟨2, 2⟩, some "/f", some "/g", none, none, none⟩
+
+def exInitH : SrcSt := { fs := [("/f", .file [1, 2, 3])], prov := ⟨8, 254⟩ }
+
+/-- put, Metadata, one tile, EOF (the unacknowledged transaction completes), a foreign transaction, and
+the same again: the handler's transactions got 254 and 0, the foreign one 255 -/
+def exHist : List Op :=
+  [.put exReqH, .sm none, .get, .sm none, .get, .sm none, .get, .otherTransaction,
+   .put exReqH, .sm none, .get, .sm none, .get, .sm none, .get]
+
+example : txSeqs (runOps exEnvH exInitH exHist).inds = [254, 0] ∧ (runOps exEnvH exInitH exHist).prov.next = 1 ∧
+    draws exHist = 7 := by
+  decide +kernel
+
+example : (txSeqs (runOps exEnvH exInitH exHist).inds).Nodup :=
+  C19_all_histories_distinct exEnvH exInitH exHist rfl (by decide) (by decide)
 
 end Cfdp.Source.C19
